@@ -321,6 +321,68 @@ theorem C06_payout_exact_reverse_returns (env : Env) (hE : EnvOk env) (p : Param
   rw [ha] at ha0; cases ha0
   exact bidRev_returns env hE p now s.bal b' a a' bidder denom amt (hI.1 id a ha).2.2 hbM hk hph hd
 
+/-! ## 7. Governance changes the parameters while auctions are open
+
+On a live chain the six auction parameters (three durations, three increments) are changed by governance /
+committee proposals while auctions are running. `runP` is a history in which every operation carries the
+parameters in force when it runs. The bid theorems above (`C06_bid_rules`, `C06_endtime_bid`, the refund
+theorems) are already stated for the parameters `p` of the step they speak about, i.e. the parameters IN FORCE
+at that bid; the history theorems are restated here for changing parameters, and the cap on the end time is
+shown to be a property of the auction record alone. -/
+
+/-- custody over every history with parameters changing between the operations -/
+theorem C06_custody_params_change (env : Env) (hE : EnvOk env) (nextId : Nat) (bal : Bal)
+    (h0 : ∀ d, bal env.M d = 0) (ops : List (Params × Int × Op)) (hops : ∀ x, x ∈ ops → OpOk env x.2.2)
+    (d : Denom) :
+    (runP env (emptySt nextId bal) ops).bal env.M d = totalCoins (runP env (emptySt nextId bal) ops) d :=
+  (runP_inv env hE ops _ (empty_inv env nextId bal h0) hops).2.1 d
+
+/-- index exactness over every history with parameters changing between the operations -/
+theorem C06_index_exact_params_change (env : Env) (hE : EnvOk env) (nextId : Nat) (bal : Bal)
+    (h0 : ∀ d, bal env.M d = 0) (ops : List (Params × Int × Op)) (hops : ∀ x, x ∈ ops → OpOk env x.2.2) :
+    let s := runP env (emptySt nextId bal) ops
+    Sorted s.index ∧
+    (∀ i a, s.auc i = some a → a.id = i ∧ (a.endT, i) ∈ s.index ∧
+        (s.index.filter (fun k => decide (k.2 = i))).length = 1) ∧
+    (∀ k, k ∈ s.index → ∃ a, s.auc k.2 = some a ∧ a.endT = k.1) := by
+  intro s
+  obtain ⟨hwf, _, hix⟩ := runP_inv env hE ops _ (empty_inv env nextId bal h0) hops
+  refine ⟨hix.1, ?_, fun k hk => index_no_stale s hix k hk⟩
+  intro i a ha
+  exact ⟨(hwf i a ha).1, (hix.2 a.endT i).mpr ⟨a, ha, rfl⟩, index_once s hix i a ha⟩
+
+/-- "the end time never moves past the maximum end time", whatever the durations are changed to and when -/
+theorem C06_endtime_le_max_params_change (env : Env) (hE : EnvOk env) (nextId : Nat) (bal : Bal)
+    (h0 : ∀ d, bal env.M d = 0) (ops : List (Params × Int × Op)) (hops : ∀ x, x ∈ ops → OpOk env x.2.2)
+    (i : Nat) (a : Auction) (ha : (runP env (emptySt nextId bal) ops).auc i = some a) : a.endT ≤ a.maxEnd :=
+  ((runP_inv env hE ops _ (empty_inv env nextId bal h0) hops).1 i a ha).2.2.2.2.2.1
+
+/-- The cap is the auction's own: once an auction has received its first bid (which fixed `maxEnd` from the
+    `MaxAuctionDuration` in force at that moment), no later operation under any later parameters — in
+    particular no bid after `MaxAuctionDuration` or a bid duration was shortened or lengthened — writes
+    `maxEnd` again; as long as the auction is stored, its end time stays ≤ that same `maxEnd`. -/
+theorem C06_max_end_fixed_under_param_changes (env : Env) (hE : EnvOk env) (s : St) (hI : Inv env s)
+    (ops : List (Params × Int × Op)) (hops : ∀ x, x ∈ ops → OpOk env x.2.2)
+    (i : Nat) (a a' : Auction) (ha : s.auc i = some a) (hb : a.hasBids = true)
+    (ha' : (runP env s ops).auc i = some a') :
+    a'.maxEnd = a.maxEnd ∧ a'.endT ≤ a.maxEnd ∧ a'.hasBids = true := by
+  have hk := runP_capKept env hE ops s hI hops i a (hI.1 i a ha).2.1 (Or.inr ⟨a, ha, hb, rfl⟩)
+  rcases hk with hn | ⟨a2, ha2, hb2, hm2⟩
+  · rw [hn] at ha'; cases ha'
+  · have hle := ((runP_inv env hE ops s hI hops).1 i a2 ha2).2.2.2.2.2.1
+    rw [ha2] at ha'; cases ha'
+    exact ⟨hm2, by rw [← hm2]; exact hle, hb2⟩
+
+/-- One bid, read with the parameters in force `p` (any): the new end time is capped by the record's own
+    `maxEnd`, not by `now + p.maxDur`, when the auction already has a bid. -/
+theorem C06_endtime_cap_independent_of_params (env : Env) (hE : EnvOk env) (p : Params) (now : Int) (s s' : St)
+    (id : Nat) (bidder : Addr) (denom : Denom) (amt : Int) (a : Auction) (ha : s.auc id = some a)
+    (hI : Inv env s) (hb : a.hasBids = true) (h : placeBid env p now s id bidder denom amt = .ok s') :
+    ∃ a', s'.auc id = some a' ∧ a'.maxEnd = a.maxEnd ∧ a'.endT ≤ a.maxEnd := by
+  obtain ⟨a', ha', _, _, hmax, _, hle⟩ := (C06_endtime_bid env hE p now s id bidder denom amt a ha hI).2 s' h
+  simp only [hb, ite_true] at hmax
+  exact ⟨a', ha', hmax, by rw [← hmax]; exact hle⟩
+
 /-! ## Non-vacuity: a concrete two-phase auction run through the model
 
 Parties: 0 = auction module (blocked), 1 = liquidator module (minter, burner), 4/5 = bidders,
